@@ -253,9 +253,27 @@ func (p Prop[C]) Check(t *testing.T) {
 	start := time.Now()
 	violPath := filepath.Join(OutDir(), fmt.Sprintf("violation-%s-%s.json", p.Name, Shard()))
 	_ = os.Remove(violPath)
+	// rapid checks its shrink budget only between passes; a failing case that takes seconds
+	// (a wedged hub, a blocked shutdown) would make one pass last for ever. Once the budget
+	// since the first failure is spent, every candidate other than the smallest failing case
+	// found so far is turned down without being run.
+	budget := 30 * time.Second
+	if d, err := time.ParseDuration(os.Getenv("VERIF_SHRINKTIME")); err == nil {
+		budget = d + 10*time.Second
+	}
+	var firstFail time.Time
+	var lastFailing, lastMsg string
 	rapid.Check(t, func(rt *rapid.T) {
 		c := p.Gen(rt)
 		cb, _ := json.Marshal(c)
+		if !firstFail.IsZero() && string(cb) == lastFailing {
+			// the shrinker often arrives at the same case through other random bits: its
+			// verdict is known (and a slow failing case is not run again and again)
+			rt.Fatalf("%s", lastMsg)
+		}
+		if !firstFail.IsZero() && time.Since(firstFail) > budget {
+			rt.Skip("shrink budget spent")
+		}
 		// Log the case before running it: if the process dies this is the replay file.
 		p.writeReplay(p.curPath(), c, nil)
 		o := p.safeRun(c)
@@ -277,8 +295,13 @@ func (p Prop[C]) Check(t *testing.T) {
 		}
 		mu.Unlock()
 		if len(fatal) > 0 {
+			if firstFail.IsZero() {
+				firstFail = time.Now()
+			}
+			lastFailing = string(cb)
+			lastMsg = fmt.Sprintf("VIOLATION %s: %s", p.full(), fatal[0].Error())
 			p.writeReplay(violPath, c, fatal)
-			rt.Fatalf("VIOLATION %s: %s", p.full(), fatal[0].Error())
+			rt.Fatalf("%s", lastMsg)
 		}
 	})
 	mu.Lock()
